@@ -50,7 +50,9 @@ def formula_cases(draw, tier):
     p = draw(st.integers(1, 5))
     scale = draw(st.one_of(st.sampled_from([0.5, 2.5, 0.0, 1.0, 3.7, 2.0, 3.0]), st.floats(0.0, 10.0, allow_nan=False)))
     # a whole-numbered scale may come out of a grid scan as a NumPy integer (for s in np.arange(1, 4): ...)
-    case = {"detector": det, "p": p, "scale": scale, "scale_type": "np.int64" if float(scale).is_integer() and draw(st.booleans()) else "python"}
+    case = {"detector": det, "p": p, "scale": scale, "scale_type": "np.int64" if float(scale).is_integer() and draw(st.booleans()) else "python",
+            # afterwards the fitted detector is applied to a series of another length: the fitted value must stay what fit made it
+            "then_predict": draw(st.sampled_from([None, "shorter", "longer", "longer"]))}
     # the documented defaults depend on the shape of the data only, whatever scorer (and number of parameters it estimates) is used
     scorer = draw(st.sampled_from(SCORER_CHOICES[det])) if det in SCORER_CHOICES else None
     msl = 2
@@ -141,7 +143,37 @@ def check_formula(case):
         if not close(float(det.point_penalty_), ps * float(detp.point_penalty_), 1e-10) or det.point_penalty_ < 0:
             raise Violation("CAPA.point_penalty_ is not proportional to point_penalty_scale", scale=ps,
                             got=float(det.point_penalty_), at_scale_one=float(detp.point_penalty_))
-    return {"nontrivial": scale not in (0.0, 1.0), "classes": [f"det={det_name}", f"scorer={case.get('scorer', 'default')}"] + (["numpy_integer_scale"] if case.get("scale_type") == "np.int64" else [])}
+    classes = [f"det={det_name}", f"scorer={case.get('scorer', 'default')}"] + (["numpy_integer_scale"] if case.get("scale_type") == "np.int64" else [])
+    if case.get("then_predict"):
+        # "after fit, the threshold or penalty equals the scale times the default value for the shape of the TRAINING data": applying
+        # the fitted detector to a series of another length must not change it
+        n_min = {"PELT": 2 * params.get("min_segment_length", 2), "SeededBinarySegmentation": 2 * params.get("min_segment_length", 2),
+                 "CircularBinarySegmentation": 2 * params.get("min_segment_length", 2), "CAPA": params.get("min_segment_length", 2),
+                 "MovingWindow": 2 * params.get("bandwidth", 1)}[det_name]
+        n2 = max(n_min, min(n // 2 - 1, 120)) if case["then_predict"] == "shorter" or n > 150 else n + 37
+        # (the cost of a predict grows quickly with n for the user L1 cost and for circular binary segmentation: bounded lengths)
+        if det_name == "CircularBinarySegmentation":
+            n2 = min(n2, 60) if params["max_interval_length"] <= 40 else n
+        if n2 != n:
+            attrs = [attr] + (["point_penalty_"] if det_name == "CAPA" else [])
+            before = [float(getattr(det, a)) for a in attrs]
+            X2 = np.random.Generator(np.random.PCG64(1000 * n2 + p)).standard_normal((n2, p))  # a function of the case
+            X2[n2 // 2:] += 1.0
+            try:
+                with sut(f"{det_name}.predict / transform_scores on a series of another length", allowed=(RuntimeError,)):
+                    det.predict(X2)
+                    if det_name in ("PELT", "MovingWindow", "CAPA"):
+                        det.transform_scores(X2)
+            except RuntimeError as e:  # the documented not-positive-definite error of a covariance-based scorer (short windows)
+                if "positive definite" not in str(e):
+                    raise Violation(f"unexpected RuntimeError: {e}")
+                classes.append("not_pd_error_accepted")
+            after = [float(getattr(det, a)) for a in attrs]
+            if before != after:
+                raise Violation(f"{det_name}: the fitted {' / '.join(attrs)} changed when the fitted detector was applied to a series of another length",
+                                n_train=n, n_predict=n2, before=before, after=after, params=params)
+            classes.append(f"then_predict={case['then_predict']}")
+    return {"nontrivial": scale not in (0.0, 1.0), "classes": classes}
 
 
 # ------------------------------------------------------------------ (ii) tuned thresholds
